@@ -11,6 +11,8 @@ import (
 	"time"
 )
 
+var decStats map[string]int
+
 type decKind uint8
 
 const (
@@ -77,6 +79,7 @@ type harnessRun struct {
 	pathCap      bool
 	samples      []string
 	curKnown     string
+	violKeys     map[string]int
 	wall         time.Duration
 }
 
@@ -84,6 +87,9 @@ func (in *Interp) resetPath() {
 	in.undoTrail()
 	in.epoch++
 	in.pc = in.pc[:0]
+	in.pcSet = nil
+	in.bind = nil
+	in.bindMemo = nil
 	in.pos = 0
 	in.steps = 0
 	in.depth = 0
@@ -108,7 +114,50 @@ func (in *Interp) addPC(c *Term) {
 	if c.IsTrue() {
 		return
 	}
+	if c.op == OpBAnd {
+		in.addPC(c.args[0])
+		in.addPC(c.args[1])
+		return
+	}
+	// record variable bindings implied by the conjunct
+	switch {
+	case c.op == OpEq && (c.args[0].op == OpVar) && c.args[1].op == OpConst:
+		in.bindVar(c.args[0], c.args[1])
+	case c.op == OpBVar:
+		in.bindVar(c, TT.True)
+	case c.op == OpBNot && c.args[0].op == OpBVar:
+		in.bindVar(c.args[0], TT.False)
+	}
+	if in.pcSet == nil {
+		in.pcSet = map[int]bool{}
+	}
+	if in.pcSet[c.id] {
+		return
+	}
+	in.pcSet[c.id] = true
 	in.pc = append(in.pc, c)
+}
+
+func (in *Interp) bindVar(v, c *Term) {
+	if in.bind == nil {
+		in.bind = map[int]*Term{}
+	}
+	if _, ok := in.bind[v.id]; ok {
+		return
+	}
+	in.bind[v.id] = c
+	in.bindMemo = nil
+}
+
+// simp substitutes the variables fixed by the path condition.
+func (in *Interp) simp(t *Term) *Term {
+	if len(in.bind) == 0 || !t.sym {
+		return t
+	}
+	if in.bindMemo == nil {
+		in.bindMemo = map[int]*Term{}
+	}
+	return Subst(t, in.bind, in.bindMemo)
 }
 
 func (in *Interp) checkSat(extra *Term, wantModel bool) (SatResult, Model) {
@@ -136,6 +185,7 @@ func (in *Interp) modelSatisfies(c *Term) bool {
 
 // branch decides a symbolic condition; returns the side taken on this path.
 func (in *Interp) branch(c *Term) bool {
+	c = in.simp(c)
 	if c.IsConst() {
 		return c.val != 0
 	}
@@ -192,6 +242,9 @@ func (in *Interp) branch(c *Term) bool {
 	}
 	in.trace = append(in.trace, d)
 	in.pos++
+	if decStats != nil {
+		decStats["branch "+d.what+fmt.Sprintf(" forced=%v", d.forced)]++
+	}
 	if d.val != 0 {
 		in.addPC(c)
 		return true
@@ -204,6 +257,7 @@ const maxConcretize = 96
 
 // concInt returns a concrete value for t, forking over its feasible values.
 func (in *Interp) concInt(t *Term, what string) int64 {
+	t = in.simp(t)
 	if t.IsConst() {
 		return t.Int()
 	}
@@ -256,6 +310,13 @@ func (in *Interp) concInt(t *Term, what string) int64 {
 		m = mm
 	}
 	v := sext(t.Eval(m), t.w)
+	if decStats != nil {
+		w := what
+		if in.cur != nil {
+			w += " @" + shortPos(in.fset, in.cur.pos)
+		}
+		decStats["value "+w]++
+	}
 	d := &decision{kind: dValue, val: v, tried: []int64{v}, what: what}
 	in.trace = append(in.trace, d)
 	in.pos++
@@ -310,6 +371,7 @@ func nextTrace(tr []*decision) ([]*decision, bool) {
 }
 
 func (in *Interp) assume(c *Term) {
+	c = in.simp(c)
 	if c.IsTrue() {
 		return
 	}
@@ -340,6 +402,21 @@ func (in *Interp) currentChoices() []int64 {
 
 func (in *Interp) violation(kind, name, detail string, model Model, stack []string) {
 	run := in.run
+	key := kind + "|" + name + "|" + run.curKnown + "|"
+	if kind != "assert" {
+		d := detail
+		if len(d) > 160 {
+			d = d[:160]
+		}
+		key += d
+	}
+	if run.violKeys == nil {
+		run.violKeys = map[string]int{}
+	}
+	run.violKeys[key]++
+	if run.violKeys[key] > 1 {
+		return
+	}
 	v := &Violation{Harness: run.name, Args: run.args, Kind: kind, Name: name, Detail: detail, Model: map[string]uint64{}, Choices: in.currentChoices(), Known: run.curKnown, Stack: stack}
 	for k, x := range model {
 		v.Model[k] = x
@@ -352,6 +429,7 @@ func (in *Interp) assert(name string, c *Term) {
 	run := in.run
 	run.assertNames[name]++
 	run.obligations++
+	c = in.simp(c)
 	if c.IsTrue() {
 		run.trivial++
 		run.discharged++
